@@ -550,6 +550,7 @@ class ScheduleMonitor:
             cut = [m for m, s in enumerate(seg) if s.label[0] == "call" and m > 0]
             if cut:
                 seg = seg[:cut[0]]
+            es["call_start"] = self.call_start(j)
             if hasattr(ad, "start_epoch") and (es["epoch"] is None or self.is_call_start(j)):
                 es["epoch"] = ad.start_epoch(run, self.call_start(j))
             markers = [m for m, s in enumerate(seg) if s.label[0] == "marker"]
